@@ -177,6 +177,20 @@ func (s *Sys) Probe(c *Ctx, who int, book *secretBook) holdings {
 			c.Violate("ake-ephemeral-retained", "ake-keys,state="+state, "keys derived for the key exchange (c, m1, m2, ...) are still reachable although no key exchange is in progress", ctx())
 		}
 	}
+	if strings.HasPrefix(s.lastOp[who], "End(") {
+		if len(h.exps) > 0 || len(h.rs) > 0 || len(h.smps) > 0 || len(h.derived) > 0 || h.smpNonNil || h.akeNonNil {
+			c.Violate("secret-survives-End", "state="+state, fmt.Sprintf("right after End(): exps=%v r=%v smp=%v derived=%v ake-context=%v", h.exps, h.rs, len(h.smps) > 0 || h.smpNonNil, h.derived, h.akeNonNil), ctx())
+		}
+	}
+	// sent text: only the most recent message may be kept once it has been transmitted
+	if len(p.texts) > 0 {
+		latest := string(p.texts[len(p.texts)-1])
+		for _, t := range h.texts {
+			if t != latest && s.sentEnc[t] {
+				c.Violate("old-text-retained", "state="+state, fmt.Sprintf("text %q was transmitted earlier and is not the most recent message, but is still reachable", t), ctx())
+			}
+		}
+	}
 	if st.MsgState != 1 && st.AKEState == 0 {
 		if len(h.exps) > 0 || len(h.smps) > 0 || len(h.derived) > 0 || h.smpNonNil {
 			c.Violate("session-secret-survives-teardown", "state="+state, fmt.Sprintf("not encrypted and no key exchange in progress, but still reachable: exps=%v smp=%v derived=%v", h.exps, len(h.smps) > 0 || h.smpNonNil, h.derived), ctx())
@@ -256,6 +270,13 @@ func c08History(c *Ctx, steps int) *Sys {
 				}
 				c.Count("op:smp")
 			}
+		case x < 22 && c.R.Chance(1, 2):
+			// the peer reports an error, then the user writes again
+			s.Inject(a, []byte("?OTR Error: oops"), fmt.Sprintf("WError %s", coqBytes([]byte("oops"))))
+			probe()
+			tn++
+			s.Send(a, []byte(fmt.Sprintf("text-%d-%x", tn, c.R.Bytes(6))))
+			c.Count("op:error-then-send")
 		case x < 22:
 			// lose what is in flight (an abandoned exchange stays abandoned)
 			s.dropFrom(a, s.ps[a].pending)
